@@ -2,7 +2,10 @@
 
 package sftp
 
-import "io"
+import (
+	"io"
+	"os"
+)
 
 //verif:atomic-invisible
 
@@ -57,6 +60,70 @@ func vh_C13_writeat_conc() {
 	vAssert(err != nil, "a failed chunk is reported")
 	vAssert(int64(n) == ff.failOff, "the count names the failing offset")
 	vAssert(vBytesEq(ff.data[:vMin(n, len(ff.data))], b[:vMin(n, len(ff.data))]), "the first n bytes really moved")
+	vEmit("n", n)
+}
+
+// a SET of failing chunks, each with its own error: whichever order the chunk
+// replies are processed in, the call reports the lowest failing offset and the
+// error that belongs to it (added after seeded change C03-e)
+func vLowest(mask uint, l int) int {
+	for o := 0; o < l; o++ {
+		if mask&(1<<uint(o)) != 0 {
+			return o
+		}
+	}
+	return -1
+}
+
+func vSameFault(err error, off int64) bool {
+	want := vFaultCode(off)
+	if want == ErrSSHFxPermissionDenied {
+		return vErrorsIs(err, os.ErrPermission)
+	}
+	se, ok := err.(*StatusError)
+	return ok && se.Code == sshFxFailure
+}
+
+func vh_C13_writeat_conc_set() {
+	l := vNChunksW()
+	b := vNondetArray(l)
+	mask := uint(vChoice(1 << uint(l)))
+	c, f, ff := vNewFaultXfer(nil, 1, -1)
+	defer vPeerDone(c)
+	ff.failMask = mask
+	c.useConcurrentWrites = true
+	n, err := f.WriteAt(b, 0)
+	low := vLowest(mask, l)
+	if low < 0 {
+		vAssert(err == nil && n == l && vBytesEq(ff.data, b), "complete transfer")
+		return
+	}
+	vAssert(err != nil, "a failed chunk is reported")
+	vAssert(n == low, "the count names the lowest failing offset")
+	vAssert(vSameFault(err, int64(low)), "the error is the one belonging to the lowest failing offset")
+	vAssert(vBytesEq(ff.data[:vMin(n, len(ff.data))], b[:vMin(n, len(ff.data))]), "the first n bytes really moved")
+	vEmit("n", n)
+}
+
+func vh_C13_readat_conc_set() {
+	l := vNChunks()
+	content := vNondetArray(l)
+	mask := uint(vChoice(1 << uint(l)))
+	c, f, ff := vNewFaultXfer(content, 1, -1)
+	defer vPeerDone(c)
+	ff.failMask = mask
+	c.disableConcurrentReads = false
+	b := make([]byte, l)
+	n, err := f.ReadAt(b, 0)
+	low := vLowest(mask, l)
+	if low < 0 {
+		vAssert(err == nil && n == l && vBytesEq(b, content), "complete transfer")
+		return
+	}
+	vAssert(err != nil && err != io.EOF, "a failed chunk is reported")
+	vAssert(n == low, "the count names the lowest failing offset")
+	vAssert(vSameFault(err, int64(low)), "the error is the one belonging to the lowest failing offset")
+	vAssert(vBytesEq(b[:n], content[:n]), "the first n bytes were transferred intact")
 	vEmit("n", n)
 }
 
